@@ -130,6 +130,15 @@ func init() {
 		_ = docvalidator.New().IsValidPayload(in)
 		_ = didvalidator.New().IsValidPayload(in)
 	})
+	// request bytes -> the parser's own calls only (short: used where many calls have to overlap)
+	registerEntry("ParserOnly", func(in []byte) {
+		entrySetup()
+		p := entryStack.Parser
+		_, _ = p.Parse("did:ion", in)
+		_, _ = p.ParseOperation("did:ion", in, true)
+		_, _ = p.GetRevealValue(in)
+		_, _ = p.GetCommitment(in)
+	})
 	// {"type": t, "request": "<bytes>"} -> Applier.Apply on an existing and on an empty state
 	registerEntry("Apply", func(in []byte) {
 		entrySetup()
